@@ -1,6 +1,8 @@
 package main
 
 import (
+	"github.com/ipfs/go-cid"
+	mh "github.com/multiformats/go-multihash"
 	"bytes"
 	"fmt"
 	"sort"
@@ -46,7 +48,30 @@ func runInspect(input []byte, ro readOpts, full bool) string {
 		st.MinBlockLength, st.AvgBlockLength, st.MaxBlockLength, countsStr(st.CodecCounts), countsStr(st.MhTypeCounts), uint64(st.IndexCodec))
 }
 
+// hashKindArchives: a valid two-block archive per hash function / digest length of the alphabet
+// (truncated digests, identity, double hashes ...), inspected with and without validation.
+func hashKindArchives(g *Gen, o *Out) {
+	for _, hc := range hashAlphabet[5:] {
+		d := g.bytes(3 + g.pick(20))
+		h, err := mh.Sum(d, hc.code, hc.len)
+		if err != nil {
+			continue
+		}
+		first := g.Block()
+		bs := []Blk{first, {cid.NewCidV1(cid.Raw, h), d}}
+		o.HashBlocks(bs)
+		arch := writeAll([]cid.Cid{first.C}, bs, g.pick(2) == 0)
+		ro := defaultReadOpts()
+		refSections(arch, o.Hash)
+		for _, full := range []bool{true, false} {
+			o.Line(fmt.Sprintf("inspect full=%d %s in=%s", b2i(full), ro, hexOr(arch)), runInspect(arch, ro, full))
+		}
+		o.Count(fmt.Sprintf("valid-kind/%d", hc.code))
+	}
+}
+
 func famC13(g *Gen, o *Out, n int, thorough bool) {
+	hashKindArchives(g, o)
 	for c := 0; c < n; c++ {
 		maxB := 5
 		if thorough {
